@@ -318,7 +318,18 @@ Definition judge_k5 (c : k5case) : list Z :=
   [ (bit missing 1 + bit extra 2 + bit (negb lenok) 4)%Z; Z.of_nat (length (h_cuts c)); Z.of_nat (length online) ].
 
 (* ============================================================================================== *)
-Inductive case05 := K1 (h : Q) (c : k1case) | K2 (c : k2case) | K3 (c : k3case) | K4 (c : k4case) | K5 (c : k5case).
+(** * K6: a line followed by an elliptical arc, dashed with a pattern whose last boundary on this subpath falls on the line: the
+      arc lies wholly inside the last dash and must be part of it as it is (start point, radii, rotation in radians, flags, end
+      point as stored), exactly once.  CHECKED against the stored record (1e-9 relative). *)
+Record k6case := mkK6 { i_exp : list Q; i_act : list (list Q); i_panic : bool }.
+(** flags: 1 PROP the output does not hold exactly one arc, 2 PROP no arc of the output is the input's arc, 32 PROP panic *)
+Definition judge_k6 (c : k6case) : list Z :=
+  if i_panic c then [32%Z; 0%Z; 0%Z] else
+  let close a b := Qle_bool (Qabs (a - b)) ((1 # 1000000000) * (1 + Qabs b)) in
+  let same l := (length l =? length (i_exp c))%nat && forallb (fun ab => close (fst ab) (snd ab)) (combine l (i_exp c)) in
+  [ (bit (negb (length (i_act c) =? 1)%nat) 1 + bit (negb (existsb same (i_act c))) 2)%Z; Z.of_nat (length (i_act c)); 0%Z ].
+
+Inductive case05 := K1 (h : Q) (c : k1case) | K2 (c : k2case) | K3 (c : k3case) | K4 (c : k4case) | K5 (c : k5case) | K6 (c : k6case).
 
 Definition judge (c : case05) : list Z :=
-  match c with K1 h k => judge_k1 h k | K2 k => judge_k2 k | K3 k => judge_k3 k | K4 k => judge_k4 k | K5 k => judge_k5 k end.
+  match c with K1 h k => judge_k1 h k | K2 k => judge_k2 k | K3 k => judge_k3 k | K4 k => judge_k4 k | K5 k => judge_k5 k | K6 k => judge_k6 k end.
